@@ -17,3 +17,28 @@ CHECKS = {
     "C08": {"harnesses": [("harness.ophistory", "C08_OpHistory")]},
     "C03": {"harnesses": [("harness.matching", "C03_ClearingRound"), ("harness.matching", "C03_Continuous")]},
 }
+
+_L = ("bounded verification by symbolic execution of the real code: for every structural case in the stated bounds the "
+      "decision tree of the real functions is explored to exhaustion with z3 deciding each branch and each oracle "
+      "obligation over all numeric values in the stated ranges; this is the right level because the property quantifies over "
+      "all inputs/histories/schedules and the deciding code is comparison-heavy integer/real arithmetic; outside the bounds "
+      "nothing is claimed")
+_N = ("trusted: z3, CPython, the proxy semantics (checked on every run by a concolic agreement test against plain Python "
+      "values and by concrete replay of every counterexample), the oracles (transcriptions of the property text); floats are "
+      "exact reals; stubs and bounds are listed in the evidence file")
+META = {pid: {"level": _L, "note": _N} for pid in ["C%02d" % i for i in range(1, 21)]}
+
+# properties not claimed (yet): kept current by hand
+NOT_APPLICABLE = {
+    "C06": "harness not built yet in this revision (planned: RN clock/series monitor)",
+    "C07": "harness not built yet in this revision (planned: two-run comparison under nondeterministic global sources)",
+    "C12": "harness not built yet in this revision",
+    "C13": "harness not built yet in this revision",
+    "C14": "harness not built yet in this revision",
+    "C15": "harness not built yet in this revision",
+    "C16": "harness not built yet in this revision",
+    "C17": "harness not built yet in this revision",
+    "C18": "harness not built yet in this revision",
+    "C19": "harness not built yet in this revision",
+    "C20": "harness not built yet in this revision",
+}
